@@ -28,12 +28,16 @@ PARTIAL = [
     "recorded finding entity-reference-in-value-unescaped with the witness signon_entity_refuted",
     "values with leading/trailing whitespace are outside the domain (the readers strip element data); tax years: Python int() is modelled on ASCII text; "
     "a tax request with no year and no id (an empty TAX1099RQ) is not generated without end tags",
+    "requests that are instances of user subclasses of the five parameter classes (class Tagged(CcStmtRq): pass) are modelled "
+    "(request_statements_named: sort by class name, group by class, dispatch to the base kind), run through the correspondence and the predicate "
+    "(one wrapper per request, request order within each class), and proved to coincide with request_statements on the stock names "
+    "(named_requests_stock); the closed-form theorems themselves are stated for the stock classes only",
     "the constructor guard is modelled and proved (v2_refuses_unclosed) but observed through requests only: removing it alone is not reported, "
     "because serialize still refuses and no 2xx request without end tags is composed",
 ]
 MANIFEST = {
     "engine": "Compose",
-    "text": "Eleven obligations about the executable model of request composition. For every configuration and EVERY list of requests (any length, order, "
+    "text": "Twelve obligations about the executable model of request composition. For every configuration and EVERY list of requests (any length, order, "
             "mix) the composed body is OFX[sign-on; BANKMSGSRQV1[closing, statement wrappers]; CREDITCARDMSGSRQV1[...]; INVSTMTMSGSRQV1[...]] with a message "
             "set present iff it has a wrapper and the wrappers of each kind in request order within the kind (closed form of the sorted/groupby/sort/"
             "groupby/dict pipeline, proved from a stable-sort-by-rank lemma), each wrapper carrying its request's ids, type, dates and flags; exactly one "
@@ -52,6 +56,11 @@ KINDS = ["StmtRq", "CcStmtRq", "InvStmtRq", "StmtEndRq", "CcStmtEndRq"]
 TRN = {"StmtRq": ("BANKMSGSRQV1", "STMTTRNRQ", "STMTRQ"), "StmtEndRq": ("BANKMSGSRQV1", "STMTENDTRNRQ", "STMTENDRQ"),
        "CcStmtRq": ("CREDITCARDMSGSRQV1", "CCSTMTTRNRQ", "CCSTMTRQ"), "CcStmtEndRq": ("CREDITCARDMSGSRQV1", "CCSTMTENDTRNRQ", "CCSTMTENDRQ"),
        "InvStmtRq": ("INVSTMTMSGSRQV1", "INVSTMTTRNRQ", "INVSTMTRQ")}
+# user subclasses of the stock parameter classes (class Tagged(CcStmtRq): pass); the names sort before / between / after the stock ones
+SUBCLASSES = {"AaStmtRq": "StmtRq", "TaggedCcStmtRq": "CcStmtRq", "DInvStmtRq": "InvStmtRq", "MStmtEndRq": "StmtEndRq",
+              "ZCcStmtEndRq": "CcStmtEndRq", "CdStmtRq": "StmtRq", "JCcStmtRq": "CcStmtRq", "StmtRqX": "StmtRq",
+              "BInvStmtRq": "InvStmtRq", "UStmtEndRq": "StmtEndRq", "KCcStmtEndRq": "CcStmtEndRq"}
+_SUBCLASS_CACHE = {}
 INIT_KEYS = ["userid", "clientuid", "org", "fid", "version", "appid", "appver", "language", "prettyprint", "close_elements",
              "bankid", "brokerid", "useragent", "persist_cookies"]
 ENTITIES = ("&amp;", "&lt;", "&gt;", "&quot;", "&apos;", "&nbsp;")
@@ -240,9 +249,22 @@ def install_oracles():
     CL.OFXClient.dtclient = lambda self: Oracle.dtclient
 
 
+def request_class(CL, r):
+    base = getattr(CL, r["k"])
+    name = r.get("cls")
+    if not name:
+        return base
+    if SUBCLASSES.get(name) != r["k"]:
+        raise AssertionError("unknown subclass %r of %s" % (name, r["k"]))
+    key = (id(base), name)
+    if key not in _SUBCLASS_CACHE:
+        _SUBCLASS_CACHE[key] = type(name, (base,), {})          # class <name>(<base>): pass
+    return _SUBCLASS_CACHE[key]
+
+
 def mk_request(CL, r):
-    cls = getattr(CL, r["k"])
-    kw = {f: (mk_dt(v) if f.startswith("dt") else v) for f, v in r.items() if f != "k"}
+    cls = request_class(CL, r)
+    kw = {f: (mk_dt(v) if f.startswith("dt") else v) for f, v in r.items() if f not in ("k", "cls")}
     return cls(**kw)
 
 
@@ -307,6 +329,8 @@ def coq_rq(r):
 def coq_op(op):
     g = C.cbool(op["gen"])
     if op["kind"] == "statements":
+        if any(r.get("cls") for r in op["requests"]):
+            return "(OpStatementsNamed %s %s [%s])" % (ct(op["password"]), g, ";".join("(%s, %s)" % (ct(r.get("cls") or r["k"]), coq_rq(r)) for r in op["requests"]))
         return "(OpStatements %s %s [%s])" % (ct(op["password"]), g, ";".join(coq_rq(r) for r in op["requests"]))
     if op["kind"] == "accounts":
         return "(OpAccounts %s %s %s)" % (ct(op["password"]), pdate(op["dtacctup"]), g)
@@ -488,9 +512,21 @@ def predicate(case, header_fields, tree):
                 chk("wrapper tags under " + ms, sorted(TRN[r["k"]][1] for r in op["requests"] if r["k"] in kinds_here), sorted(c[0] for c in node[2]))
                 for k in kinds_here:
                     _, trntag, rqtag = TRN[k]
-                    want = [describe_request(r, eff) for r in op["requests"] if r["k"] == k]
+                    mine = [r for r in op["requests"] if r["k"] == k]
+                    want = [describe_request(r, eff) for r in mine]
                     got = [describe_wrapper(k, w, rqtag) for w in kids(node, trntag)]
-                    chk("%s wrappers (request order)" % trntag, want, got)
+                    classes = sorted({r.get("cls") or r["k"] for r in mine})
+                    if len(classes) <= 1:
+                        chk("%s wrappers (request order)" % trntag, want, got)
+                    else:
+                        # several classes share this wrapper type (user subclasses): one wrapper per request, and request
+                        # order within each class
+                        key = lambda d: json.dumps(d, sort_keys=True, default=str)
+                        chk("%s wrappers (one per request)" % trntag, sorted(map(key, want)), sorted(map(key, got)))
+                        for cn in classes:
+                            sub = [describe_request(r, eff) for r in mine if (r.get("cls") or r["k"]) == cn]
+                            it = iter(got)
+                            chk("%s wrappers of class %s (request order)" % (trntag, cn), True, all(any(x == y for y in it) for x in sub))
                 for w in node[2]:
                     trnuids.append(leafmap(w).get("TRNUID"))
     else:
@@ -765,6 +801,11 @@ def gen_case(rng, malformed, accttypes):
             ks = rng.sample(KINDS, rng.choice([1, 2]))
             rqs = [dict(gen_request(rng, False, accttypes)) for _ in range(n)]
             rqs = [r for r in rqs if r["k"] in ks] or rqs
+        if rqs and rng.random() < 0.25:
+            # instances of user subclasses of the stock classes, mixed with stock instances
+            for r in rqs:
+                if rng.random() < 0.5:
+                    r["cls"] = rng.choice([n for n, b in SUBCLASSES.items() if b == r["k"]])
         if rqs and rng.random() < 0.4:
             # a MULTISET of requests: the same request (equal in every field) given two or three times, adjacent or not;
             # every occurrence must get its own wrapper
@@ -992,7 +1033,7 @@ def describe_case(case):
     a = case["init"]
     s = "OFXClient(%s)" % ", ".join("%s=%r" % (k, a[k]) for k in INIT_KEYS if k in a)
     if op["kind"] == "statements":
-        return s + ".request_statements(%r, %s)" % (op["password"], ", ".join("%s(%r)" % (r["k"], r["acctid"]) for r in op["requests"]))
+        return s + ".request_statements(%r, %s)" % (op["password"], ", ".join("%s(%r)" % (r.get("cls") or r["k"], r["acctid"]) for r in op["requests"]))
     if op["kind"] == "tax":
         return s + ".request_tax1099(%r, %s, acctnum=%r, recid=%r)" % (op["password"], ", ".join(map(repr, op["years"])), op["acctnum"], op["recid"])
     if op["kind"] == "accounts":
